@@ -10,6 +10,10 @@ import WuffsVerif.Model.Png.Spec
         PIX    = hex | - | seeded:SEED:LEN | fill:XX:LEN | adlerstress:LEN:C
   specdecode (last | hex)                        -> none | some W H DEPTH CT ITEM(pixels)
         `last` = concatenation of the Write calls of the previous encode
+  stdview hex                                    -> none | some W H GOTYPE ITEM(rgba)
+        the decoded image the way a standard decoder reports it: GOTYPE = the image type Go's image/png
+        returns (Gray, Gray16, RGBA, RGBA64, NRGBA, NRGBA64); rgba = for every pixel, row-major, the four
+        values R G B A of `Spec.Image.rgba` (non-premultiplied, at the image's depth) as 2 bytes big-endian each
   ITEM = lower-case hex when at most 1024 bytes ("-" when empty), else
          #LEN:ADLER32:CRC32:FNV1A64  (decimal length, hex digests)
 -/
@@ -117,12 +121,32 @@ def doSpecDecode (bs : List UInt8) : String :=
   | none => "none"
   | some im => s!"some {im.width} {im.height} {im.depth} {im.colorType} {item im.pixels.toArray}"
 
+def viewBytes (im : Spec.Image) : Array UInt8 := Id.run do
+  let mut a : Array UInt8 := Array.mkEmpty (im.width * im.height * 8)
+  for y in [0:im.height] do
+    for x in [0:im.width] do
+      match im.rgba x y with
+      | some (r, g, b, al) =>
+        for v in [r, g, b, al] do
+          a := (a.push (UInt8.ofNat (v / 256))).push (UInt8.ofNat v)
+      | none => a := a.push 0xEE
+  return a
+
+def doStdView (bs : List UInt8) : String :=
+  match Spec.decode bs with
+  | none => "none"
+  | some im => s!"some {im.width} {im.height} {im.goType} {item (viewBytes im)}"
+
 def step (st : St) (l : List String) : St × String :=
   match l with
   | ["reset"] => (St.new, "ok")
   | "encode" :: w :: h :: stride :: depth :: ct :: pix :: rest => doEncode st w h stride depth ct pix rest
   | ["specdecode", "last"] =>
     (st, doSpecDecode (st.last.foldr (fun a acc => a.toList ++ acc) []))
+  | ["stdview", h] =>
+    match fromHex h with
+    | some bs => (st, doStdView bs)
+    | none => (st, "bad-op")
   | ["specdecode", h] =>
     match fromHex h with
     | some bs => (st, doSpecDecode bs)
